@@ -132,6 +132,10 @@ def build(S):
         S.under_contract(C10.FN_SQRT)
         C10.add_mirror(S)
         S.under_contract(C10.E_ + "combineSfuncs")
+        # up-down mirror at the option level: each leg takes the target options named after IT (the
+        # mirrored configuration sets target_*_upper_* where the original sets target_*_lower_*)
+        S.under_contract(C10.E_ + "getSpacings", C10.E_ + "getTargetParameter")
+        C10.spacing_selection(S)
         C10.add_combine_ranges(S)  # the transition ranges are chosen alike at the start and at the end of a region  # poloidal sqrt spacing of a region = reflected spacing of the mirrored region, guard cells included
 
 
